@@ -50,9 +50,10 @@ type Item [4]string
 
 // Step is one invocation in model vocabulary (the ev record of Upgrade.tla).
 type Step struct {
-	Act string   `json:"act"` // "update" | "wait"
+	Act string   `json:"act"` // "update" | "wait" | "prep"
 	S   []string `json:"S"`
 	V   int64    `json:"v"`
+	Op  string   `json:"op,omitempty"` // prep: operation of the deployed (old) contract, argument in V
 }
 
 // Scenario is one contract instance with its pre-upgrade state and the attempts made on it.
@@ -209,7 +210,8 @@ func newWorld(t *testing.T, sc *Scenario, seed int64) *world {
 		// answers of methods the recorded version does not have cannot be compared before/after
 		for _, m := range []string{"containersOf", "alias", "owner", "count", "listContainerSizes", "getContainerSize", "getByID",
 			"listByEpoch", "snapshot", "listConfig", "netmapCandidates", "tokens", "roots", "getPrice", "properties", "getRecords",
-			"resolve", "tokensOf", "ownerOf", "key", "list", "get", "eACL", "netmap", "config", "epoch", "balanceOf", "totalSupply", "name"} {
+			"resolve", "tokensOf", "ownerOf", "getAllRecords", "snapshotByEpoch", "lastEpochBlock", "listNodes", "listCandidates",
+			"iterateContainerSizes", "iterateAllContainerSizes", "decimals", "symbol", "listByCID", "listByNode", "key", "list", "get", "eACL", "netmap", "config", "epoch", "balanceOf", "totalSupply", "name"} {
 			if !w.dump.old[m] {
 				w.skip[m] = true
 			}
@@ -275,11 +277,25 @@ func multi(t testing.TB, privs []*keys.PrivateKey, m int) neotest.Signer {
 // ---------------------------------------------------------------------------------------------
 // model values -> bytes
 
+var derived = map[string][]byte{} // (seed, label) -> bytes; key generation is the expensive part of the encoding
+
 func (w *world) addr(name string) []byte { // 20-byte account
-	return chain.DetKey(w.seed, "acc|"+name).PublicKey().GetScriptHash().BytesBE()
+	k := strconv.FormatInt(w.seed, 10) + "|acc|" + name
+	if b, ok := derived[k]; ok {
+		return b
+	}
+	b := chain.DetKey(w.seed, "acc|"+name).PublicKey().GetScriptHash().BytesBE()
+	derived[k] = b
+	return b
 }
 func (w *world) pub(name string) []byte { // 33-byte public key
-	return chain.DetKey(w.seed, "node|"+name).PublicKey().Bytes()
+	k := strconv.FormatInt(w.seed, 10) + "|node|" + name
+	if b, ok := derived[k]; ok {
+		return b
+	}
+	b := chain.DetKey(w.seed, "node|"+name).PublicKey().Bytes()
+	derived[k] = b
+	return b
 }
 func (w *world) owner(name string) []byte { // 25-byte NeoFS owner id
 	a := w.addr("owner|" + name)
@@ -291,8 +307,21 @@ func (w *world) owner(name string) []byte { // 25-byte NeoFS owner id
 var cidOwner = map[string]string{"c1": "o1", "c2": "o2", "c3": "o1", "c4": "o3"}
 var curWorld *world
 
+func ownerOfCid(c string) string {
+	if o, ok := cidOwner[c]; ok {
+		return o
+	}
+	n, _ := strconv.Atoi(strings.TrimPrefix(c, "c"))
+	return "o" + strconv.Itoa(n%3+1)
+}
+
 func cid(name string) []byte {
-	h := sha256.Sum256(curWorld.cnrBlob(name, cidOwner[name]))
+	k := strconv.FormatInt(curWorld.seed, 10) + "|cid|" + name
+	if b, ok := derived[k]; ok {
+		return b
+	}
+	h := sha256.Sum256(curWorld.cnrBlob(name, ownerOfCid(name)))
+	derived[k] = h[:]
 	return h[:]
 }
 func hash20(name string) []byte {
@@ -386,16 +415,24 @@ func over2(xs, ys []string) func(*world) [][2]string {
 }
 
 var (
-	uAccounts = []string{"u1", "u2", "u3", "l1", "l2"}
-	uCids     = []string{"c1", "c2", "c3", "c4"}
+	uAccounts = append([]string{"u1", "u2", "u3", "l1", "l2", "l3"}, seqNames("a", 1, 48)...) // a*: bulk accounts (every 6th is a lock account)
+	uCids     = append([]string{"c1", "c2", "c3", "c4"}, seqNames("c", 5, 24)...)
 	uOwners   = []string{"o1", "o2", "o3"}
 	uNodes    = []string{"k1", "k2", "k3"}
 	uEpochs   = []string{"5", "300", "70000", "big"} // epoch 0 encodes as the empty string and prefixes everything (C20)
 	uEpochsNZ = []string{"5", "300", "70000"} // stores whose listings take the epoch as a key prefix (no encoding is a prefix of another)
 	uCfg      = []string{"ContainerFee", "EpochDuration", "HomomorphicHashingDisabled", "A", "AB"}
-	uNames    = []string{"neofs", "container", "org", "a.neofs", "b.neofs", "x.a.neofs", "n1.container", "site.org"}
-	uIdx      = []string{"0", "1", "2", "3", "4", "5", "6", "7", "8", "9", "10", "11"}
+	uNames    = []string{"neofs", "container", "org", "a.neofs", "b.neofs", "c.neofs", "d.neofs", "x.a.neofs", "n1.container", "site.org", "e.org", "f.org"}
+	uIdx      = seqNames("", 0, 15)
 )
+
+func seqNames(prefix string, from, to int) []string {
+	var o []string
+	for i := from; i <= to; i++ {
+		o = append(o, prefix+strconv.Itoa(i))
+	}
+	return o
+}
 
 func hexVal(_ *world, _, _ string, raw []byte) string { return "x" + hex.EncodeToString(raw) }
 func strVal(_ *world, _, _, v string) []byte          { return []byte(v) }
@@ -440,6 +477,19 @@ func ballotsVal(w *world, _, _, v string) []byte {
 		arr = []stackitem.Item{mk("b1", w.ballotH)}
 	case "mixed":
 		arr = []stackitem.Item{mk("b1", -1000), mk("b2", w.ballotH)}
+	case "many": // eight stale ballots
+		for i := 0; i < 8; i++ {
+			arr = append(arr, mk("b"+strconv.Itoa(i), -1000-int64(i)))
+		}
+	case "manyfresh": // seven stale ballots and a fresh one at the end
+		for i := 0; i < 7; i++ {
+			arr = append(arr, mk("b"+strconv.Itoa(i), -1000-int64(i)))
+		}
+		arr = append(arr, mk("b7", w.ballotH))
+	case "edge20": // exactly 20 blocks old when the next transaction runs: still pending
+		arr = []stackitem.Item{mk("b1", w.ballotH-20)}
+	case "edge21": // 21 blocks old: stale
+		arr = []stackitem.Item{mk("b1", w.ballotH-21)}
 	}
 	return ser(stackitem.NewArray(arr))
 }
@@ -483,12 +533,39 @@ func (w *world) height() uint32 {
 	return w.c.Height()
 }
 
-func accountVal(w *world, a, _, v string) []byte {
+// account: value = balance; b = "" for an ordinary account, "until~parent" for a lock account (accounts named l*
+// are lock accounts with the default "7~u1" when b is empty)
+func accountVal(w *world, a, b, v string) []byte {
 	until, parent := stackitem.Make(0), stackitem.Item(stackitem.Null{})
-	if strings.HasPrefix(a, "l") {
-		until, parent = stackitem.Make(7), bs(w.addr("u1"))
+	if b == "" && strings.HasPrefix(a, "l") {
+		b = "7~u1"
+	}
+	if b != "" {
+		p := strings.SplitN(b, "~", 2)
+		until, parent = in(p[0]), bs(w.addr(p[1]))
 	}
 	return ser(stackitem.NewStruct([]stackitem.Item{in(v), until, parent}))
+}
+
+// lockMeta decodes Until/Parent of a stored account ("" for an ordinary account)
+func (w *world) lockMeta(raw []byte) string {
+	it, err := stackitem.Deserialize(raw)
+	if err != nil {
+		return ""
+	}
+	f, ok := it.Value().([]stackitem.Item)
+	if !ok || len(f) != 3 {
+		return ""
+	}
+	u, err := f[1].TryInteger()
+	if err != nil {
+		return "?"
+	}
+	pb := chain.ItemBytes(f[2])
+	if u.Sign() == 0 && len(pb) == 0 {
+		return ""
+	}
+	return numStr(u) + "~" + w.accName(pb)
 }
 func accountDec(_ *world, _, _ string, raw []byte) string {
 	it, err := stackitem.Deserialize(raw)
@@ -649,8 +726,35 @@ func (w *world) nodesOld(v string) []byte {
 	return ser(stackitem.NewArray(arr))
 }
 
-// nodeFacts flattens a (possibly nested, possibly state-less) node structure into "key:state"
+// wellFormedNode: the two-field structure (BLOB, State) the read API of the tree version documents
+func wellFormedNode(it stackitem.Item) bool {
+	f, ok := it.Value().([]stackitem.Item)
+	if !ok || len(f) != 2 {
+		return false
+	}
+	if _, compound := f[0].Value().([]stackitem.Item); compound {
+		return false
+	}
+	if _, err := f[0].TryBytes(); err != nil {
+		return false
+	}
+	_, err := f[1].TryInteger()
+	return err == nil
+}
+
+// nodeStr renders a node structure returned by the read API as "key:state". An answer of the tree version must be
+// the two-field structure, anything else (a legacy one-field or nested structure that was not migrated) is
+// rendered with state "?".
 func (w *world) nodeStr(it stackitem.Item) string {
+	s := w.nodeStrLenient(it)
+	if !wellFormedNode(it) {
+		return s[:strings.LastIndex(s, ":")+1] + "?"
+	}
+	return s
+}
+
+// nodeStrLenient flattens a (possibly nested, possibly state-less) node structure into "key:state"
+func (w *world) nodeStrLenient(it stackitem.Item) string {
 	var leaves []stackitem.Item
 	var walk func(stackitem.Item)
 	walk = func(x stackitem.Item) {
@@ -698,7 +802,7 @@ func (w *world) nodesDec(raw []byte) string {
 		if !ok {
 			return "x" + hex.EncodeToString(raw)
 		}
-		s := w.nodeStr(x)
+		s := w.nodeStrLenient(x)
 		if len(f) == 1 { // legacy: no state field
 			s = strings.TrimSuffix(s, ":1")
 		}
@@ -835,7 +939,7 @@ func kindShapes(kind string) map[string]shape {
 			if err != nil {
 				return "x" + hex.EncodeToString(raw)
 			}
-			s := w.nodeStr(it)
+			s := w.nodeStrLenient(it)
 			return s[strings.LastIndex(s, ":")+1:]
 		}, ids: over(uNodes...)}
 		m["ocand"] = shape{key: candKey, val: func(w *world, k, _, v string) []byte {
@@ -864,7 +968,7 @@ func kindShapes(kind string) map[string]shape {
 			m["rec"+strconv.Itoa(typ)] = shape{key: func(_ *world, n, id string) []byte {
 				i, _ := strconv.Atoi(id)
 				return cat([]byte{0x22}, tokenKey(n), tokenKey(n), []byte{byte(typ), byte(i)})
-			}, val: func(w *world, n, id, v string) []byte { return recVal(w, n, strconv.Itoa(typ)+":"+id, v) }, dec: recDec, ids: over2(uNames, []string{"0", "1", "2"})}
+			}, val: func(w *world, n, id, v string) []byte { return recVal(w, n, strconv.Itoa(typ)+":"+id, v) }, dec: recDec, ids: over2(uNames, uIdx)}
 		}
 		m["nbal0"] = shape{key: func(*world, string, string) []byte { return []byte{0x01} }, val: intVal, dec: intDec, ids: one}
 	case "neofsid":
@@ -945,6 +1049,8 @@ func (w *world) decodeStore(raw map[string][]byte) []Item {
 				sh = "ocand"
 			}
 			switch {
+			case w.kind == "balance" && (sh == "acc" || sh == "aacc"):
+				out = append(out, Item{sh, e[1], w.lockMeta(v), val})
 			case w.kind == "netmap" && (sh == "snap" || sh == "osnap"):
 				// one model item per (slot, node)
 				for _, x := range strings.Split(val, ",") {
@@ -1016,18 +1122,31 @@ func (w *world) setupShell() {
 		w.nm = w.c.DeployNetmap()
 		w.c.FundGAS(w.h, 1000_0000_0000)
 	}
-	w.ballotH = int64(w.c.Height()) + 1
 	shapes := kindShapes(w.kind)
 	var ks, vs []any
+	var ballots *Item
 	for _, it := range groupItems(w.kind, w.sc.Store) {
 		d, ok := shapes[it[0]]
 		require.True(w.t, ok, "kind %s: unknown shape %q", w.kind, it[0])
+		if it[0] == "ballots" {
+			it := it
+			ballots = &it
+			continue
+		}
 		ks = append(ks, d.key(w, it[1], it[2]))
 		vs = append(vs, d.val(w, it[1], it[2], it[3]))
 	}
 	for i := 0; i < len(ks); i += 40 {
 		j := min(i+40, len(ks))
 		r := w.c.Run(w.h, nil, "putMany", ks[i:j], vs[i:j])
+		require.True(w.t, r.Halt, "shell fill: %s", r.Fault)
+	}
+	// the ballots go last, in their own block: the next transaction (the first update attempt) sees
+	// ledger.CurrentIndex() = the index of that block = ballotH, so ages are exact
+	w.ballotH = int64(w.c.Height()) + 1
+	if ballots != nil {
+		d := shapes["ballots"]
+		r := w.c.Run(w.h, nil, "put", d.key(w, "", ""), d.val(w, "", "", ballots[3]))
 		require.True(w.t, r.Halt, "shell fill: %s", r.Fault)
 	}
 }
